@@ -54,6 +54,7 @@ def validate(seed=0):
         l = [r.randint(-3, 9) for _ in range(r.randint(0, 7))]
         sl = sorted(l)
         assert len(sl) == len(l) and all(x in l for x in sl)
+        assert all(sl[a] <= sl[b] for a in range(len(sl)) for b in range(a, len(sl)))  # sorted-asc
         n += 1
     # isspace / isdigit of a concatenation, exhaustively over short strings
     strs = [""] + ["".join(p) for k in (1, 2) for p in itertools.product(ALPH, repeat=k)]
